@@ -1016,6 +1016,8 @@ class SoftwareSwitchBase (object):
     req = ofp.body
     if req.port_no == OFPP_NONE:
       return list(self.port_stats.values())
+    elif req.port_no not in self.port_stats:
+      return [] # No such port
     else:
       return self.port_stats[req.port_no]
 
